@@ -3,7 +3,9 @@ package main
 import (
 	"bufio"
 	"bytes"
+	"errors"
 	"fmt"
+	"io"
 	"math/rand"
 	"os"
 	"runtime"
@@ -276,6 +278,73 @@ func concHistory(args []string) error {
 			}
 		}
 	}
+	// calls that FAIL half-way (a reader that breaks after delivering some bytes; a parse that panics because of a bad Elide
+	// option; a mapper error) must leave nothing behind: the next call on the same object equals the call on a fresh one
+	lexVia := func(def lexer.Definition, r io.Reader) string {
+		names := symbolNames(def)
+		l, err := def.Lex("c.txt", r)
+		if err != nil {
+			return "lexiniterr " + err.Error()
+		}
+		ts, err := lexer.ConsumeAll(l)
+		if err != nil {
+			return "err " + err.Error()
+		}
+		return tokensKey(ts, names)
+	}
+	{
+		def := plainDef()
+		want := lexVia(plainDef(), strings.NewReader(useInput["A"]))
+		status, got := "ok", ""
+		for round := 0; round < 60 && status == "ok"; round++ {
+			lexVia(def, &flakyReader{data: "<b>partial"})
+			if got = lexVia(def, strings.NewReader(useInput["A"])); got != want {
+				status = "MISMATCH"
+			}
+			if got = lexVia(plainDef(), strings.NewReader(useInput["A"])); got != want { // the leftover may be global
+				status = "MISMATCH"
+			}
+		}
+		fmt.Printf("%s\tafter Lex on a reader that fails half-way, Lex(reader) returns %q; on a fresh definition %q\n", status, got, want)
+		p := participle.MustBuild[mappedGrammar]()
+		wantP := fmt.Sprint(p.Parse("", strings.NewReader("a b 1")))
+		status = "ok"
+		for round := 0; round < 60 && status == "ok"; round++ {
+			_, _ = p.Parse("", &flakyReader{data: "zz 9 "})
+			if got = fmt.Sprint(p.Parse("", strings.NewReader("a b 1"))); got != wantP {
+				status = "MISMATCH"
+			}
+		}
+		fmt.Printf("%s\tafter Parse on a reader that fails half-way, Parse returns %q; before %q\n", status, got, wantP)
+	}
+	{
+		call := func(p *participle.Parser[mappedGrammar]) (res string) {
+			defer func() {
+				if r := recover(); r != nil {
+					res = fmt.Sprintf("panic %v", r)
+				}
+			}()
+			v, err := p.ParseString("", "a b")
+			return fmt.Sprint(v, err)
+		}
+		mk := func() *participle.Parser[mappedGrammar] {
+			p, err := participle.Build[mappedGrammar](participle.Elide("NoSuchToken"))
+			if err != nil {
+				return nil
+			}
+			return p
+		}
+		if p := mk(); p != nil {
+			first := call(p)
+			second := call(p)
+			fresh := call(mk())
+			status := "ok"
+			if second != fresh || first != fresh {
+				status = "MISMATCH"
+			}
+			fmt.Printf("%s\ta parser with an Elide option naming an unknown token: first call %q, second call %q, first call on a fresh parser %q\n", status, first, second, fresh)
+		}
+	}
 	// results handed out earlier must not change when the parser is used again (no aliasing of reused storage)
 	for _, e := range examples() {
 		if e.name != "expr" {
@@ -299,6 +368,20 @@ func concHistory(args []string) error {
 		fmt.Printf("%s\ttoken lists of an AST returned earlier, after 100 further parses on the same parser: %.80s vs %.80s\n", status, after, before)
 	}
 	return nil
+}
+
+// flakyReader delivers its data and then fails with a non-EOF error.
+type flakyReader struct {
+	data string
+	done bool
+}
+
+func (f *flakyReader) Read(p []byte) (int, error) {
+	if f.done {
+		return 0, errors.New("connection reset")
+	}
+	f.done = true
+	return copy(p, f.data), nil
 }
 
 // exprTokens collects the Tokens fields reachable from an expression AST.
